@@ -72,6 +72,8 @@ pub fn js_path_process<'a, 'b, T: Queryable>(
     path: &'b JpQuery,
     value: &'a T,
 ) -> Queried<Vec<QueryRef<'a, T>>> {
+    #[cfg(jsonpath_rust_verif)]
+    crate::verif::point(crate::verif::EVAL_ENTER);
     match path.process(State::root(value)).data {
         Data::Ref(p) => Ok(vec![p.into()]),
         Data::Refs(refs) => Ok(refs.into_iter().map(Into::into).collect()),
